@@ -213,6 +213,9 @@ func query(h *gorm.DB, o Op) (val int, err error) {
 func (o Op) String() string {
 	via := []string{"cfg", "sess"}[o.Via]
 	switch o.Kind {
+	case "rq":
+		o.Kind = "q"
+		return "root-with-deadline:" + o.String()
 	case "q":
 		if o.Row {
 			return fmt.Sprintf("row%d(%d)@%s", o.Text, o.Arg, via)
@@ -220,6 +223,8 @@ func (o Op) String() string {
 		return fmt.Sprintf("q%d(%d)@%s", o.Text, o.Arg, via)
 	case "e":
 		return "e@" + via
+	case "x":
+		return "x@" + via
 	case "tx", "conn":
 		parts := make([]string, len(o.Sub))
 		for i, s := range o.Sub {
@@ -308,6 +313,9 @@ func newEnv(mode string) *env {
 		if _, err := e.sqlDB.Exec(fmt.Sprintf("CREATE TABLE priv%d (n integer)", g)); err != nil {
 			panic(err)
 		}
+		if _, err := e.sqlDB.Exec(fmt.Sprintf("CREATE TABLE uq%d (n integer primary key)", g)); err != nil {
+			panic(err)
+		}
 	}
 	if mode == "config" || mode == "both" {
 		e.cfg = open(true)
@@ -378,7 +386,7 @@ func genProgram(t *rapid.T, g int, mode string, allowClose bool) []Op {
 	n := rapid.IntRange(1, 4).Draw(t, fmt.Sprintf("g%d.len", g))
 	var ops []Op
 	for i := 0; i < n; i++ {
-		kinds := []string{"q", "q", "q", "q", "e", "tx", "tx", "conn", "reset"}
+		kinds := []string{"q", "q", "q", "q", "e", "x", "tx", "tx", "conn", "reset"}
 		if allowClose {
 			if mode == "both" && harness.OpenClass("C14", "close-stale-session-handle") {
 				// listed finding: Close through the Config-level cache while session-level handles exist
@@ -479,6 +487,18 @@ func runCase(rt *rapid.T) {
 					r.err = e.handle(o.Via, ctx).Exec(fmt.Sprintf("INSERT INTO priv%d (n) VALUES (?)", gid), 1).Error
 					r.end = ctl.tick()
 					record(r)
+				case "x":
+					// the same insert three times: the second and third fail in the database (UNIQUE), as
+					// in non-prepared mode - an ordinary statement error says nothing about the statement
+					for k := 0; k < 3; k++ {
+						ctl.mu.Lock()
+						ctl.badconn[gid] = 0 // each of the three is an operation of its own
+						ctl.mu.Unlock()
+						r := opResult{gid: gid, op: o, start: ctl.tick()}
+						r.err = e.handle(o.Via, ctx).Exec(fmt.Sprintf("INSERT INTO uq%d (n) VALUES (?)", gid), 1).Error
+						r.end = ctl.tick()
+						record(r)
+					}
 				case "tx":
 					start := ctl.tick()
 					// members of a block; a member that is itself a tx is a nested block (SAVEPOINT through the
@@ -760,6 +780,8 @@ func runCase(rt *rapid.T) {
 			return texts[r.op.Text]
 		case "e":
 			return fmt.Sprintf("INSERT INTO priv%d (n) VALUES (?)", r.gid)
+		case "x":
+			return fmt.Sprintf("INSERT INTO uq%d (n) VALUES (?)", r.gid)
 		}
 		return ""
 	}
@@ -838,6 +860,8 @@ func runCase(rt *rapid.T) {
 			ws, we = txWindow(r)
 		}
 		switch {
+		case r.op.Kind == "x" && strings.Contains(r.err.Error(), "UNIQUE constraint failed"):
+			// the database's answer, in any mode
 		case isErr(r.err, errPrepare):
 			if !failedPrepareDuring(r, errPrepare) && !(r.inTx && controlFault(r.gid, ws, r.end, "prepare-error")) {
 				fail("g%d %s returned the injected prepare error although no preparation failed during the operation (a failed preparation was cached)", r.gid, r.op)
@@ -1181,6 +1205,14 @@ func TestC14BoundedPool(t *testing.T) {
 				for j, m := 0, rapid.IntRange(1, 3).Draw(rt, "blocklen"); j < m; j++ {
 					o.Sub = append(o.Sub, genQ(fmt.Sprintf("op%d.%d", i, j)))
 				}
+				if maxOpen == 1 && rapid.IntRange(0, 2).Draw(rt, "rootq") == 0 {
+					// while the block holds the only connection: a read through the ROOT handle under a
+					// deadline - it cannot get a connection and must give up when the deadline passes
+					rq := genQ(fmt.Sprintf("op%d.rq", i))
+					rq.Kind = "rq"
+					at := rapid.IntRange(0, len(o.Sub)).Draw(rt, "rootqAt")
+					o.Sub = append(o.Sub[:at], append([]Op{rq}, o.Sub[at:]...)...)
+				}
 				if k == "tx" && maxOpen == 2 && rapid.Bool().Draw(rt, "nested") {
 					// a second block inside the first: holds both connections
 					inner := Op{Kind: "tx", Via: via}
@@ -1222,6 +1254,19 @@ func TestC14BoundedPool(t *testing.T) {
 						if s.Kind == "tx" {
 							// an independent transaction on the root handle while this one is open
 							if msg = runBlock(e.handle(via, ctx), s); msg != "" {
+								return nil
+							}
+							continue
+						}
+						if s.Kind == "rq" {
+							at.Store(s.String())
+							dctx, cancel := context.WithTimeout(ctx, 60*time.Millisecond)
+							q := s
+							q.Kind = "q"
+							_, err := query(e.handle(via, dctx), q)
+							cancel()
+							if err == nil || !(errors.Is(err, context.DeadlineExceeded) || strings.Contains(err.Error(), "context deadline exceeded")) {
+								msg = fmt.Sprintf("%s through the root handle with a 60ms deadline, while the block holds the only connection, returned %v; non-prepared mode returns context deadline exceeded", q, err)
 								return nil
 							}
 							continue
@@ -1278,6 +1323,13 @@ func TestC14BoundedPool(t *testing.T) {
 		}
 		if hasNested {
 			cl = append(cl, "block:second-transaction-inside")
+		}
+		for _, o := range prog {
+			for _, s := range o.Sub {
+				if s.Kind == "rq" {
+					cl = append(cl, "block-member:root-handle-read-under-deadline")
+				}
+			}
 		}
 		nontrivial := false
 		for _, o := range prog {
